@@ -70,6 +70,13 @@ Fixpoint dget (m : list (pv * pv)) (k : ustr) : option pv :=
   | (x, v) :: m' => if key_is k x then Some v else dget m' k
   end.
 
+(* d[k] = v : replace in place if present, else append *)
+Fixpoint dset (m : list (pv * pv)) (k : ustr) (v : pv) : list (pv * pv) :=
+  match m with
+  | [] => [(VStr k, v)]
+  | (x, y) :: r => if key_is k x then (x, v) :: r else (x, y) :: dset r k v
+  end.
+
 Definition dhas (m : list (pv * pv)) (k : ustr) : bool :=
   match dget m k with Some _ => true | None => false end.
 
